@@ -276,6 +276,8 @@ func runC09(c *Ctx) {
 
 	// ---- C09.7 / C09.8 (second round)
 	ruleArgumentOnlyWhenUnsupplied(c, "C09.7")
+	ruleProvidersInDeclOrder(c, "C09.12")
+	ruleProviderTypeResultsFresh(c, "C09.13")
 	ruleTypeIdentity(c, "C09.8", genPkg)
 
 	// ---- C09.6 safety net in Build
